@@ -429,11 +429,13 @@ class AudioThread(threading.Thread):
       #Below is a faster way to call:
       #  self.stream.write(chunk, self.chunk_size)
       self.write_stream(st, chunk, self.chunk_size, False)
-      if not self.go.is_set():
+      if self.halting or not self.go.is_set():
         self.stream.stop_stream()
         if self.halting:
           break
         self.go.wait()
+        if self.halting: # Stopped while paused
+          break
         self.stream.start_stream()
 
     # Finished playing! Destructor-like step: let's close the thread
@@ -446,12 +448,13 @@ class AudioThread(threading.Thread):
     """ Stops the playing thread and close """
     with self.lock:
       self.halting = True
-      self.go.clear()
+      self.go.set() # Wakes the thread up (to finish) if it's paused
 
   def pause(self):
     """ Pauses the audio. """
     with self.lock:
-      self.go.clear()
+      if not self.halting: # Stopping can't be undone (nor paused)
+        self.go.clear()
 
   def play(self):
     """ Resume playing the audio. """
